@@ -781,6 +781,15 @@ def _oracle_roundtrip(ctx, stream: str, case: dict, path: Path, prior: bytes | N
             if d:
                 what = f"entry {k[:40]!r} stage {s}: {d}"
                 break
+    if what is None:
+        # file order (the dictionary hides the order of the stages of one path): path bytes, then stage
+        from dulwich.index import read_index
+        try:
+            seq = [(e.name, (e.flags >> 12) & 3) for e in read_index(io.BytesIO(out))]
+        except Exception as ex:
+            seq = exc_kind(ex)
+        if seq != [(k, s) for k, s, _ in exp]:
+            what = f"entries are not written in git's order (path bytes, then stage): {str(seq)[:200]}"
     if what is None and ver != expected_version(case):
         what = f"version read back {ver} != {expected_version(case)}"
     if what is None:
